@@ -5,7 +5,6 @@ From RV Require Import Prelude.
 From Bpe Require Import ModelBpe.
 Open Scope N_scope.
 
-Inductive new_out := NewOk | NewErr (e : new_err) | NewOther | NewPanic.
 
 Record case := {
   m_opts : opts;
@@ -36,16 +35,9 @@ Definition ids_eqb : list N -> list N -> bool := list_eqb N.eqb.
 
 (* Tokenizer::encode without a pre-tokenizer: the whole text is the only chunk *)
 Definition model_ids (b : bpe) (w : list N) : option (list N) :=
-  match tk_encode b w [(0, w)] with
+  match tk_encode b w None [(0, w)] with
   | Ok (ids, _) => Some ids
   | _ => None
-  end.
-
-Definition new_err_eqb (a b : new_err) : bool :=
-  match a, b with
-  | InvalidMergeEntry, InvalidMergeEntry => true
-  | MissingVocabEntry, MissingVocabEntry => true
-  | _, _ => false
   end.
 
 Fixpoint obs_get (obs : list (N * str)) (id : N) : option str :=
